@@ -475,6 +475,18 @@ func (c *SpacelessCase) Exec(t *eng.T) {
 	if got.Failed() || got.S != "["+want+"]" {
 		t.Fail("spaceless:mismatch", "spaceless body %q renders %s, want %q", body, got, "["+want+"]")
 	}
+	// a spaceless block written inside another one does its own work: its output may leave the outer block's body
+	// by another way (a macro called later, a filter that measures it)
+	if !strings.ContainsAny(body, "{}%#") {
+		nest1 := px.Render(nil, "{% spaceless %}{% macro m() %}{% spaceless %}"+body+"{% endspaceless %}{% endmacro %}{% endspaceless %}[{{ m()|safe }}]", nil)
+		if nest1.Failed() || nest1.S != "["+want+"]" {
+			t.Fail("spaceless:nested-macro", "a spaceless macro body %q defined inside a spaceless block and called after it renders %s, want %q", body, nest1, "["+want+"]")
+		}
+		nest2 := px.Render(nil, "{% spaceless %}<i> {% filter length %}{% spaceless %}"+body+"{% endspaceless %}{% endfilter %} </i>{% endspaceless %}", nil)
+		if w2 := fmt.Sprintf("<i> %d </i>", len([]rune(want))); nest2.Failed() || nest2.S != w2 {
+			t.Fail("spaceless:nested-measured", "the length of a spaceless block %q inside a spaceless block renders %s, want %q", body, nest2, w2)
+		}
+	}
 	// also with the body supplied at run time (same rendered body, same result)
 	got2 := px.Render(nil, "[{% spaceless %}{{ b|safe }}{% endspaceless %}]", pongo2.Context{"b": body})
 	if got2.Failed() || got2.S != "["+want+"]" {
@@ -505,6 +517,9 @@ func constructs() []construct {
 		}, 4},
 		{"for-blank", func(d []bool, wa, wb string) []item {
 			return []item{{tag: "for i in l", block: true, dl: d[0], dr: d[1]}, {text: wb + wa}, {tag: "endfor", block: true, dl: d[2], dr: d[3]}}
+		}, 4},
+		{"commenttag", func(d []bool, wa, wb string) []item { // a comment block: tags with dashes, a body that is never rendered
+			return []item{{tag: "comment", block: true, dl: d[0], dr: d[1]}, {tag: "endcomment", block: true, dl: d[2], dr: d[3]}}
 		}, 4},
 		{"ifelse", func(d []bool, wa, wb string) []item {
 			return []item{{tag: "if 0", block: true, dl: d[0], dr: d[1]}, {text: "n"}, {tag: "else", block: true, dl: d[2], dr: d[3]}, {text: wa + "c" + wb}, {tag: "endif", block: true}}
@@ -537,7 +552,7 @@ func run(r *eng.Runner) {
 		wFull = []string{"", " ", "\t", "\n", " \n\t ", "\r\n", "\r"}
 		wBody = []string{"", "\n "}
 	}
-	r.Group("one-construct", "c15.doc", fmt.Sprintf("W a W C W b W with W over %d whitespace runs, C over 7 constructs (two with whitespace-only bodies) carrying every subset of their dash positions, body whitespace over %d runs, all 4 TrimBlocks x LStripBlocks settings", len(wFull), len(wBody)))
+	r.Group("one-construct", "c15.doc", fmt.Sprintf("W a W C W b W with W over %d whitespace runs, C over 8 constructs (two with whitespace-only bodies, a comment block) carrying every subset of their dash positions, body whitespace over %d runs, all 4 TrimBlocks x LStripBlocks settings", len(wFull), len(wBody)))
 	for _, c := range cs {
 		enum.Tuples(len(wFull), 4, func(wi []int) bool {
 			for mask := 0; mask < 1<<c.nd; mask++ {
